@@ -27,7 +27,7 @@ func (C08X) CrashProne() bool              { return true }
 func (c C08X) evalAny(sc any) *sim.Outcome { return c.evaluate(sc.(*C08XScenario)) }
 
 func (C08X) Rule() string {
-	return "(x-order) One tree of 4-12 healthy repository fixtures of the real built-in extractors at production paths (plus, with some probability: two or three requirements files that -r include one shared file; a go < 1.17 go.mod with a replace directive and a go.sum that lists the replacement; two files in one nix store directory; a mix.lock wanted by two extractors), scanned through SimFS with every enabled extractor under P listing orders (every directory lists its entries in the order of a keyed hash of their names; key 0 = sorted) x R repetitions per order (Go map iteration). Oracle: every run yields the same multiset of packages (extractor, name, version, sorted locations, source repo/commit, metadata digest) and the same plugin statuses (status enum per extractor). Non-trivial = at least two listing orders really differ in some directory with two or more entries and at least three extractors reported packages. " + theTable().summary()
+	return "(x-order) One tree of 4-12 healthy repository fixtures of the real built-in extractors at production paths (plus, with some probability: two or three requirements files that -r include one shared file; a go < 1.17 go.mod with a replace directive and a go.sum that lists the replacement; two files in one nix store directory, optionally one of them over MaxFileSize; a package-lock.json with two entries of one package at the same git commit but different versions), scanned through SimFS with every enabled extractor under P listing orders (every directory lists its entries in the order of a keyed hash of their names; key 0 = sorted) x R repetitions per order (Go map iteration). Oracle: every run yields the same multiset of packages (extractor, name, version, sorted locations, source repo/commit, metadata digest) and the same plugin statuses (status enum per extractor). Non-trivial = at least two listing orders really differ in some directory with two or more entries and at least three extractors reported packages. " + theTable().summary()
 }
 
 func (C08X) Decode(raw json.RawMessage) (any, error) {
@@ -67,6 +67,25 @@ func (C08X) Gen(rt *rapid.T, tier string) any {
 		p.add(FileSpec{Path: d + "/go.mod", Src: Src{Text: "module example.com/m\n\ngo 1.16\n\nrequire (\n\texample.com/old v1.0.0\n\texample.com/other v0.3.0\n)\n\nreplace example.com/old v1.0.0 => example.com/fork v1.2.0\n"}})
 		p.add(FileSpec{Path: d + "/go.sum", Src: Src{Text: "example.com/fork v1.2.0 h1:AAAA=\nexample.com/fork v1.2.0/go.mod h1:BBBB=\nexample.com/other v0.3.0 h1:CCCC=\nexample.com/other v0.3.0/go.mod h1:DDDD=\nexample.com/extra v0.0.1/go.mod h1:EEEE=\n"}})
 		p.dirs[d] = true
+	}
+	if chance(rt, 30, "lock-same-commit") && has(enabled, "javascript/packagelockjson") {
+		// two entries of one package with the same git commit but different version fields
+		i := p.next
+		p.next++
+		d := inst(drawDir(rt, "pl.dir", false), "", i, "")
+		p.add(FileSpec{Path: d + "/package-lock.json", Src: Src{Text: `{"name":"x","lockfileVersion":3,"packages":{
+ "":{"name":"x"},
+ "node_modules/foo":{"version":"1.0.0","resolved":"git+ssh://git@github.com/a/foo.git#0123456789abcdef0123456789abcdef01234567"},
+ "node_modules/bar/node_modules/foo":{"version":"1.0.1","resolved":"git+ssh://git@github.com/a/foo.git#0123456789abcdef0123456789abcdef01234567"},
+ "node_modules/bar":{"version":"2.0.0","resolved":"https://registry.npmjs.org/bar/-/bar-2.0.0.tgz"}}}
+`}})
+		p.dirs[d] = true
+	}
+	if chance(rt, 10, "nix-size") && has(enabled, "os/nix") {
+		// a store directory whose first-listed file may be over the scan's size limit
+		sc.MaxFileSize = 4096
+		p.add(FileSpec{Path: "nix/store/" + nixHash + "-perl-5.38.2/bin/big", Src: Src{Text: "#!/bin/sh\n", Pad: 6000}, Exec: true})
+		p.add(FileSpec{Path: "nix/store/" + nixHash + "-perl-5.38.2/bin/small", Src: Src{Text: "x\n"}})
 	}
 	if chance(rt, 15, "nix-pair") && has(enabled, "os/nix") {
 		// two files below one store directory (os/nix looks at the first one the walk delivers)
@@ -157,8 +176,13 @@ func (c C08X) evaluate(sc *C08XScenario) *sim.Outcome {
 	if reps < 1 {
 		reps = 1
 	}
-	var refP, refS []string
-	var refDesc string
+	type runRes struct {
+		order, rep int
+		desc       string
+		pkgs       map[string][]string // extractor -> sorted package lines
+		status     map[string]string
+	}
+	var runs []runRes
 	var fps []string
 	producers := map[string]bool{}
 	for oi, key := range sc.Orders {
@@ -171,7 +195,6 @@ func (c C08X) evaluate(sc *C08XScenario) *sim.Outcome {
 			}
 			out.Executions++
 			resetDir(sb.Tmp)
-			desc := fmt.Sprintf("listing order %d (key %d), repetition %d", oi, key, r)
 			if obs.Hang || obs.Panic != "" || obs.Budget != "" || !obs.Returned {
 				// crashes and hangs are C02's business; nothing to compare
 				out.Count("skipped.scan_did_not_return", 1)
@@ -181,34 +204,61 @@ func (c C08X) evaluate(sc *C08XScenario) *sim.Outcome {
 				fps = append(fps, obs.HistFP)
 			}
 			ps, ss := resultOf(obs)
-			for _, p := range obs.Pkgs {
-				producers[p.Ext] = true
+			rr := runRes{order: oi, rep: r, desc: fmt.Sprintf("listing order %d (key %d), repetition %d", oi, key, r), pkgs: map[string][]string{}, status: map[string]string{}}
+			for _, l := range ps {
+				e := strings.SplitN(l, "|", 2)[0]
+				rr.pkgs[e] = append(rr.pkgs[e], l)
+				producers[e] = true
 			}
-			if refP == nil && refS == nil {
-				refP, refS, refDesc = ps, ss, desc
-				continue
+			for _, l := range ss {
+				kv := strings.SplitN(l, "=", 2)
+				rr.status[kv[0]] = kv[1]
 			}
-			class := "order-dependent"
-			if oi == 0 {
-				class = "map-order-dependent" // same listing order as the reference run
-			}
-			if d := diffLists(refP, ps); len(d) > 0 {
-				// one violation per extractor whose packages differ (known deviations are matched per key)
-				exts := map[string][]string{}
-				for _, l := range d {
-					e := strings.SplitN(l[2:], "|", 2)[0]
-					exts[e] = append(exts[e], l)
+			runs = append(runs, rr)
+		}
+	}
+	// Every run is executed before anything is judged (the number of executions and the class of a
+	// difference must not depend on which run happens to show it first).  Per extractor: runs of
+	// the SAME listing order that differ => map-order-dependent; otherwise runs of different
+	// listing orders that differ => order-dependent.
+	exts := map[string]bool{}
+	for _, r := range runs {
+		for e := range r.pkgs {
+			exts[e] = true
+		}
+		for e := range r.status {
+			exts[e] = true
+		}
+	}
+	for _, e := range sortedKeys(exts) {
+		for _, what := range []string{"packages", "status"} {
+			val := func(r runRes) string {
+				if what == "packages" {
+					return strings.Join(r.pkgs[e], "\n ")
 				}
-				for _, e := range sortedKeys(exts) {
-					out.Violate(class, class+":packages:"+e,
-						"the packages of %s differ between %s and %s (same tree, same configuration):\n %s", e, refDesc, desc, strings.Join(exts[e], "\n "))
-				}
-				return out
+				return r.status[e]
 			}
-			if d := diffLists(refS, ss); len(d) > 0 {
-				out.Violate(class, class+":status:"+strings.TrimLeft(strings.SplitN(d[0], "=", 2)[0], "+- "),
-					"the plugin statuses differ between %s and %s:\n %s", refDesc, desc, strings.Join(d, "\n "))
-				return out
+			var same, cross *[2]runRes
+			for i := range runs {
+				for j := i + 1; j < len(runs); j++ {
+					if val(runs[i]) == val(runs[j]) {
+						continue
+					}
+					pair := [2]runRes{runs[i], runs[j]}
+					if runs[i].order == runs[j].order && same == nil {
+						same = &pair
+					} else if runs[i].order != runs[j].order && cross == nil {
+						cross = &pair
+					}
+				}
+			}
+			class, pair := "map-order-dependent", same
+			if same == nil {
+				class, pair = "order-dependent", cross
+			}
+			if pair != nil {
+				out.Violate(class, class+":"+what+":"+e, "the %s of %s differ between %s and %s (same tree, same configuration):\n %s\nversus\n %s",
+					what, e, pair[0].desc, pair[1].desc, val(pair[0]), val(pair[1]))
 			}
 		}
 	}
@@ -222,24 +272,4 @@ func (c C08X) evaluate(sc *C08XScenario) *sim.Outcome {
 	out.Count("distinct_listing_histories", int64(len(distinct)))
 	out.Sample = map[string]any{"os": sc.OS, "files": describeFiles(sc.Files), "orders": len(sc.Orders), "reps": reps}
 	return out
-}
-
-// diffLists returns the lines only in a ("- ") or only in b ("+ ") of two sorted multisets.
-func diffLists(a, b []string) []string {
-	var d []string
-	i, j := 0, 0
-	for i < len(a) || j < len(b) {
-		switch {
-		case j >= len(b) || (i < len(a) && a[i] < b[j]):
-			d = append(d, "- "+a[i])
-			i++
-		case i >= len(a) || b[j] < a[i]:
-			d = append(d, "+ "+b[j])
-			j++
-		default:
-			i++
-			j++
-		}
-	}
-	return d
 }
